@@ -22,8 +22,8 @@ def explorer(ctx):
 
 def pose_menu(tier, seed):
     if tier == 'quick':
-        return G.poses(seed, 2, cube=[0, 1, 3, 20, 23])[:5] + G.poses(seed, 2, cube=[])[1:2] + G.poses(seed, 2, cube=[])[3:]   # 5 cube (3 flips) + 2 near-degenerate + 2 generic
-    return G.poses(seed, 5, cube=[0, 1, 3, 4, 5, 9, 10, 14, 16, 20, 23])                  # 11 cube (6 flips) + 4 near-degenerate + 5 generic
+        return G.poses(seed, 2, cube=[0, 3, 20, 23])[:4] + G.poses(seed, 2, cube=[])[1:2] + G.poses(seed, 2, cube=[])[3:]   # identity + 3 flips, 2 near-degenerate, 2 generic
+    return G.poses(seed, 4, cube=[0, 1, 3, 4, 5, 10, 14, 20, 23])                       # 9 cube (6 flips) + 4 near-degenerate + 4 generic
 
 
 def hint_forms(pp):
@@ -66,7 +66,7 @@ def base_scenarios(tier, seed, hints=False):
     q = tier == 'quick'
     cells = range(len(G.CELLS))
     if q:
-        placesA = [P(0.03, 0.03, 0.03), P(0.97, 0.03, 0.97), P(0.03, 0.97, 0.5), P(0.97, 0.97, 0.97), P(0.5, 0.5, 0.5), P(0.0, 0.0, 0.0)]
+        placesA = [P(0.03, 0.03, 0.03), P(0.97, 0.03, 0.97), P(0.03, 0.97, 0.5), P(0.5, 0.5, 0.5), P(0.0, 0.0, 0.0)]
         placesB = [P(0.97, 0.03, 0.97), P(0.03, 0.97, 0.03)]
         decoysB = ['mirror', 'nearmiss', 'second']
     else:
